@@ -108,6 +108,11 @@ class Stub:
             return False
 
         def read(self):
+            if self.reset == "incomplete":
+                import http.client
+                raise http.client.IncompleteRead(b"Licence te", 40)
+            if self.reset == "timeout":
+                raise TimeoutError("The read operation timed out")
             if self.reset:
                 raise ConnectionResetError("connection reset during transfer")
             return self.text.encode("utf-8")
@@ -120,7 +125,7 @@ class Stub:
         self.calls.append(url)
         name = url[len(BASE):] if url.startswith(BASE) else url
         ident = name[:-4] if name.endswith(".txt") else name
-        out = self.net.get(ident, "404")
+        out = self.net.get(ident, self.net.get("*", "404"))
         if out == "ok":
             return Stub.Resp(text_of(ident), 200)
         if out == "404":
@@ -129,9 +134,13 @@ class Stub:
             raise HTTPError(url, 404, "Not Found", {}, None)
         if out == "url":
             raise URLError("connection refused")
-        if out == "reset":
-            return Stub.Resp(None, 200, reset=True)
+        if out in READ_FAILURES:
+            return Stub.Resp(None, 200, reset=out)
         raise AssertionError(out)
+
+
+#: the transfer breaks while the body is read, after the 200 status: connection reset, short body, time-out
+READ_FAILURES = ("reset", "incomplete", "timeout")
 
 
 VALID = ["MIT", "0BSD", "GPL-3.0-or-later", "Apache-2.0", "CC0-1.0"]
@@ -140,6 +149,18 @@ UNKNOWN = ["Foo-1.0", "does-not-exist"]
 PLUS = ["MIT+", "EUPL-1.2+", "Foo-1.0+", "Apache-2.0+"]
 REFS = ["LicenseRef-a", "LicenseRef-b.c", "LicenseRef-a+", "LicenseRef-none"]
 POOL = VALID + DEPRECATED + UNKNOWN + PLUS + REFS
+# "unknown" identifiers that are not even a file name: with a path separator they would name a place outside LICENSES/
+# ("ABS:" stands for the scratch directory of the run); and identifiers whose <identifier>.txt no file system accepts
+PATHY = ["../evil", "sub/x", "../text/MIT", "a/../b", "./MIT", "../../outside/evil", "ABS:outside/abs-evil", "LicenseRef-a/b", "../LicenseRef-up"]
+LONG = ["LicenseRef-" + "a" * 300, "Long" + "-x" * 150]
+
+
+def pathy(i):
+    return "/" in i or i.startswith("ABS:")
+
+
+def too_long(i):
+    return len((i + ".txt").encode("utf-8")) > 255
 TAGS = "# SPDX-FileCopyrightText: 2020 Jane Doe\n"
 
 
@@ -163,7 +184,7 @@ def gt_missing(tree, root, used_by_file):
 class CmdStream(Stream):
     name = "cmd"
     rule = ("generated `reuse download` invocations: 1-5 identifiers from {valid, deprecated, unknown, with '+', duplicates, "
-            "LicenseRef-} x network outcome per identifier {200+text, status 404, HTTPError, URLError} x LICENSES/ {absent, empty, "
+            "LicenseRef-, now and then a name with a path separator or one too long for a file name} x network outcome per identifier {200+text, status 404, HTTPError, URLError, and after the 200 status: connection reset / short body / time-out while the body is read} x LICENSES/ {absent, empty, "
             "holding targets as file / dangling link / link to a file / directory} x invocation directory {root, sub-directory, "
             "inside LICENSES/} x {no VCS, Git} x --source {none, file, directory, missing} x --output {none, new, existing file, "
             "dangling link, directory, new parent, missing grandparent, with two identifiers}; whole-tree snapshot before/after, "
@@ -205,6 +226,8 @@ class CmdStream(Stream):
         for t in targets:
             r = rng.random()
             p = "%s/%s.txt" % (licdir, t)
+            if pathy(t) or too_long(t):
+                continue
             if r < 0.35:
                 kind = "f" if plain_only else rng.choice(["f", "f", "dangling", "tofile", "dir"])
                 if kind == "f":
@@ -220,6 +243,8 @@ class CmdStream(Stream):
         git, where, cwd, root, licdir, tree, state = self.layout(rng)
         n = rng.choice([1, 1, 2, 3, 4, 5])
         ids = [rng.choice(POOL) for _ in range(n)]
+        if rng.random() < 0.12:
+            ids[rng.randrange(len(ids))] = rng.choice(PATHY + LONG)
         if n > 1 and rng.random() < 0.3:
             ids.append(rng.choice(ids))
         if rng.random() < 0.15:
@@ -229,7 +254,9 @@ class CmdStream(Stream):
         net = {}
         for t in targets:
             good = 0.25 if t in ("Foo-1.0", "does-not-exist") else 0.65
-            net[t] = "ok" if rng.random() < good else rng.choice(["404", "http", "url"])
+            net[t] = "ok" if rng.random() < good else rng.choice(["404", "http", "url", "url"] + list(READ_FAILURES))
+        if any(pathy(t) for t in targets):
+            net["*"] = "ok"       # whatever URL such an "identifier" turns into, the server answers
         source = None
         r = rng.random()
         if r < 0.15:
@@ -277,6 +304,9 @@ class CmdStream(Stream):
             yield {"tree": base, "git": False, "cwd": "proj", "root": "proj", "licdir": "proj/LICENSES", "ids": ids, "all": False,
                    "output": None, "source": None, "net": {i: ("ok" if j != k else ["404", "http", "url", "404"][k]) for j, i in enumerate(ids)},
                    "used": {}}
+            for bad in READ_FAILURES:   # ... and a transfer that breaks while the body is read
+                yield {"tree": base, "git": False, "cwd": "proj", "root": "proj", "licdir": "proj/LICENSES", "ids": ids, "all": False,
+                       "output": None, "source": None, "net": {i: ("ok" if j != k else bad) for j, i in enumerate(ids)}, "used": {}}
         for _ in range(self.N[tier]):
             yield self.gen(rng)
 
@@ -333,7 +363,8 @@ class CmdStream(Stream):
             orig = urllib.request.urlopen
             urllib.request.urlopen = stub
             try:
-                code, out, exc = cli.run_cli(self.root_argv(case, top) + self.argv(case), os.path.join(top, case["cwd"]))
+                argv = [os.path.join(top, a[4:]) if a.startswith("ABS:") else a for a in self.argv(case)]
+                code, out, exc = cli.run_cli(self.root_argv(case, top) + argv, os.path.join(top, case["cwd"]))
             finally:
                 urllib.request.urlopen = orig
             after = self.snap(top)
@@ -365,8 +396,8 @@ class CmdStream(Stream):
         tree = [["", "d", ""]] + list(case["tree"])
         cwd = case["cwd"]
         ok = sorted(i for i, o in case["net"].items() if o == "ok")
-        if any(o == "reset" for o in case["net"].values()):
-            return []
+        if any(pathy(i) or too_long(strip_plus(i)) for i in case["ids"]):
+            return []          # the model's identifiers are file names the file system accepts
         f = [
             "download",
             enc_list(p for p, k, c in tree), enc_list(k for p, k, c in tree), enc_list(c for p, k, c in tree),
@@ -439,7 +470,8 @@ class CmdStream(Stream):
             par = posixpath.dirname(d)
             can_place = d not in before and (before.get(par, ("", ""))[0] == "d" or (
                 par not in before and before.get(posixpath.dirname(par), ("", ""))[0] == "d"))
-            if not can_place:
+            if not can_place or pathy(t) or too_long(t):
+                # (an "identifier" with a path separator names no LICENSES/<identifier>.txt; one that is too long for a file name cannot be stored)
                 expect[t] = None
             elif is_ref(t):
                 if src is None:
@@ -450,8 +482,8 @@ class CmdStream(Stream):
             else:
                 expect[t] = text_of(t) if case["net"].get(t, "404") == "ok" else None
         # 2. writes only LICENSES/<id>.txt (or --output) and the directory that holds it
-        allowed_files = set(dest.values())
-        allowed_dirs = {posixpath.dirname(d) for d in dest.values()}
+        allowed_files = {d for t, d in dest.items() if not pathy(t)}
+        allowed_dirs = {posixpath.dirname(d) for t, d in dest.items() if not pathy(t)}
         for p, (k, c) in sorted(new.items()):
             if k == "f" and p in allowed_files:
                 continue
@@ -472,8 +504,8 @@ class CmdStream(Stream):
                     return "content: %s holds %r, expected %r" % (d, new[d][1][:40], expect[t][:40])
         # 5. exit status
         failed = [t for t in targets if expect[t] is None]
-        if r["exc"] is not None and not any(o == "reset" for o in case["net"].values()):
-            return "crash: %s" % r["exc"]
+        if r["exc"] is not None:
+            return "crash: `reuse download` ended in an unhandled %s (network outcomes %s)" % (r["exc"], case["net"])
         if failed and r["exit"] == 0:
             return "exit-status: exit 0 although %s failed" % failed
         if not failed and r["exit"] != 0:
@@ -487,6 +519,8 @@ class CmdStream(Stream):
                 return "licenseref-network: %s was requested from the network" % c
             if ident not in targets:
                 return "fetched-unrequested: %s (targets %s)" % (c, targets)
+            if pathy(ident):
+                return "fetched-non-identifier: %s was requested from the network" % c
         # 7. --all closes the gap
         if case["all"] and r["exit"] == 0 and r.get("lint_missing") != []:
             return "all-not-closed: download --all exited 0 and lint still reports missing %s" % (r.get("lint_missing"),)
@@ -638,11 +672,11 @@ class RootCwdStream(CmdStream):
 
 
 class TransferStream(CmdStream):
-    """One identifier whose transfer breaks while the body is read (an exception urllib does not wrap):
-    judged by the property clauses only (no partial file, nothing overwritten, failure in the exit status)."""
+    """One identifier whose transfer breaks while the body is read (an exception urllib does not wrap): no partial file,
+    nothing overwritten, the failure in the exit status, no traceback; compared with the model like any other failure."""
     name = "transfer"
-    rule = ("single identifier, the stub's response raises ConnectionResetError in read(): no file may appear and the exit "
-            "status must not be 0 (oracle only; the model has no such outcome); non-trivial = distinct (exit, created paths)")
+    rule = ("single identifier, the stub's response raises ConnectionResetError in read(): no file may appear, the exit "
+            "status is 1, no traceback (the model: a failed transfer); non-trivial = distinct (exit, created paths)")
     N = {"quick": 6, "thorough": 30}
 
     def gen(self, rng):
@@ -664,11 +698,12 @@ PROPERTY = Property(
     assumptions=[
         "paths are resolved lexically in the model: a LICENSES/ (or --output parent, or --source) reached through a symbolic "
         "link to a directory is not generated; links met at the destination itself (dangling, to a file) are",
-        "identifiers contain no path separator (an identifier such as 'a/b' names a nested path; none of the property's "
-        "identifier classes does)",
-        "the network oracle has two outcomes, text or URLError (status != 200, HTTPError, connection error); an exception "
-        "urllib does not wrap (reset while the body is read) aborts the command with a traceback and exit status 1 — the "
-        "'transfer' stream checks the property's clauses for it, the model does not describe it",
+        "the model's identifiers are file names the file system accepts: an 'identifier' with a path separator ('../evil', 'sub/x', an "
+        "absolute path) or one too long for a file name is generated for the real command only (it must be refused: no request, nothing "
+        "written, exit status 1 — fixes/download-identifier-is-a-file-name.diff), not for the model",
+        "the network oracle has two outcomes, text or failure (status != 200, HTTPError, connection error, and — since "
+        "fixes/download-transfer-breaks-while-reading.diff — a connection reset / short body / time-out while the body is read, "
+        "which download_license turns into the URLError the command reports); no traceback is accepted for any of them",
         "a --output below a regular file and a directory named <id>.txt inside --source (uncaught OSError subclasses) are not generated",
         "`--all`: the missing-licence set is an input of the model (ground truth of the generated tree); that lint computes it "
         "and reads the new files back is checked by running the real lint after the real download",
